@@ -662,6 +662,11 @@ def make_set(it, items, frozen=False):
     items = list(items)
     if not items:
         return MutSet(None, frozen)
+    if not has_sym(items):
+        try:
+            return frozenset(items) if frozen else set(items)  # a literal set of constants stays a python set
+        except TypeError:
+            pass
     return MutSet(set_term(it, items), frozen)
 
 
